@@ -325,6 +325,7 @@ func (m *Machine) chanRecv(c *chanV) (value, bool) {
 
 func (m *Machine) maybeFire(c *chanV) {
 	// a timer may or may not have fired by now
+	m.timerChoice = true
 	if m.choose("choose", 2) == 1 {
 		c.fired = true
 	}
